@@ -58,12 +58,31 @@ def flags_key(flags):
     return flags
 
 
-def model_line(cid, sg: Graph, dg: Graph, opts=None, focus=(), use_shapes=(), rx=None):
+def model_line(cid, sg: Graph, dg: Graph, opts=None, focus=(), use_shapes=(), rx=None, sparql=None):
+    """sparql = (solutions, templates): solutions = [(constraint node, focus, [ {var: term} ... ])],
+    templates = {constraint node: {"minus":.., "values":.., "service":.., "nested": [vars]|None, "asVar": str|None, "usesPath":.., "usesSG":..}}"""
     opts = opts or {}
     if rx is None:
         rx = regex_table(sg, dg)
     with wire.case_cache():
-        return _model_line(cid, sg, dg, opts, focus, use_shapes, rx)
+        line = _model_line(cid, sg, dg, opts, focus, use_shapes, rx)
+        if sparql is not None:
+            sols, tmpl = sparql
+            toks = ["SPQ", str(len(sols))]
+            for c, f, rows in sols:
+                toks += [wire.term(c), wire.term(f), str(len(rows))]
+                for row in rows:
+                    items = sorted(row.items())
+                    toks.append(str(len(items)))
+                    for k, v in items:
+                        toks += [wire.esc(k), wire.term(v)]
+            toks += ["SPT", str(len(tmpl))]
+            for c, t in tmpl.items():
+                toks += [wire.term(c), "%d" % bool(t.get("minus")), "%d" % bool(t.get("values")), "%d" % bool(t.get("service")),
+                         (",".join(t["nested"]) or ",") if t.get("nested") is not None else "-", t.get("asVar") or "-",
+                         "%d" % bool(t.get("usesPath")), "%d" % bool(t.get("usesSG"))]
+            line += " " + " ".join(toks)
+        return line
 
 
 def _model_line(cid, sg, dg, opts, focus, use_shapes, rx):
@@ -83,9 +102,10 @@ def _parse_result(toks, i):
     for _ in range(nd):
         d, i = _parse_result(toks, i)
         det.append(d)
+    src = toks[i]; i += 1
     k = lambda t: "-" if t == "-" else wire.tok_key(t)
     return {"focus": k(focus), "value": k(value), "path": k(path), "component": k(comp), "shape": k(shape), "severity": k(sev),
-            "messages": sorted(wire.tok_key(m) for m in msgs), "detail": det}, i
+            "messages": sorted(wire.tok_key(m) for m in msgs), "detail": det, "source": k(src)}, i
 
 
 def parse_model(reply):
@@ -107,7 +127,8 @@ def parse_model(reply):
 def code_result_dict(r):
     k = lambda vs: "|".join(sorted(wire.tkey(v) for v in vs)) if vs else "-"
     return {"focus": k(r["focus"]), "value": k(r["value"]), "path": k(r["path"]), "component": k(r["component"]), "shape": k(r["shape"]),
-            "severity": k(r["severity"]), "messages": sorted(wire.tkey(m) for m in r["messages"]), "detail": [code_result_dict(d) for d in r["detail"]]}
+            "severity": k(r["severity"]), "messages": sorted(wire.tkey(m) for m in r["messages"]), "detail": [code_result_dict(d) for d in r["detail"]],
+            "source": k(r.get("source", []))}
 
 
 def run_code(sg: Graph, dg, opts=None, **kw):
@@ -127,8 +148,8 @@ def run_code(sg: Graph, dg, opts=None, **kw):
 
 def key_of(res, declared_msg_shapes, with_detail=True):
     """canonical hashable key; messages only when the source shape declares sh:message"""
-    key = (res["focus"], res["value"], res["path"], res["component"], res["shape"], res["severity"])
-    if res["shape"] in declared_msg_shapes:
+    key = (res["focus"], res["value"], res["path"], res["component"], res["shape"], res["severity"], res.get("source", "-"))
+    if res["shape"] in declared_msg_shapes or res.get("source", "-") in declared_msg_shapes:
         key += (tuple(res["messages"]),)
     if with_detail:
         key += (tuple(sorted(key_of(d, declared_msg_shapes, with_detail) for d in res["detail"])),)
